@@ -8,7 +8,7 @@ from ..core import hx
 
 class C08(C06):
     ID = "C08"
-    LEMMA_FILES = ["FluentProofs/Resolver.lean"]
+    LEMMA_FILES = ["FluentProofs/ResolverRefineTop.lean", "FluentProofs/ResolverRefineVal.lean"]
     RULE = ("histories on ONE bundle: every request of a GR bundle issued 2-4 times in random order interleaved with the "
             "other requests (so plural rules are cached and earlier calls have produced errors), the same argument set "
             "inserted in different orders, and each request repeated on a FRESH bundle (second bundle case on the same "
